@@ -412,3 +412,25 @@ package schema
 //@   params start end
 //@   ensures result != nil && sameKind(result, self) && rb_len(result) == rb_len(self) + 1 && rb_start(result, rb_len(self)) == start && rb_end(result, rb_len(self)) == end
 //@   ensures forall(k, 0, rb_len(self), rb_start(result, k) == rb_start(self, k) && rb_end(result, k) == rb_end(self, k))
+
+// ---------------------------------------------------------------------------
+// string types (C16): a value is accepted iff its length lies in one of the length ranges and it matches EVERY
+// pattern of EVERY level of the typedef chain (y.pats has one row per level).
+//@ define lenOK(l, n) = l == nil || len(l.Lbs) == 0 || exists(k, 0, len(l.Lbs), l.Lbs[k].Start <= n && n <= l.Lbs[k].End)
+//@ define patsWF(y) = forall(a, 0, len(y.pats), forall(b, 0, len(y.pats[a]), y.pats[a][b].Regexp != nil))
+//@ define rowOK(y, a, hi, s) = forall(b, 0, hi, re_matches(y.pats[a][b].Regexp, s))
+//@ func (*Lb).Validate
+//@   requires l != nil
+//@   nopanic
+//@   ensures iff(result == nil, l.Start <= i && i <= l.End)
+//@ func (*Length).Validate
+//@   ensures iff(result == nil, lenOK(l, i))
+//@   loop 0 invariant iff(loopidx >= 0, err != nil) && forall(k, 0, loopidx+1, !(l.Lbs[k].Start <= i && i <= l.Lbs[k].End))
+//@ func (Pattern).Validate
+//@   requires p.Regexp != nil
+//@   ensures iff(result == nil, re_matches(p.Regexp, s))
+//@ func (*ystring).Validate
+//@   requires y != nil && patsWF(y)
+//@   ensures iff(result == nil, lenOK(y.len, len(s)) && forall(a, 0, len(y.pats), rowOK(y, a, len(y.pats[a]), s)))
+//@   loop 0 invariant forall(a, 0, loopidx+1, rowOK(y, a, len(y.pats[a]), s))
+//@   loop 1 invariant forall(a, 0, outer(loopidx)+1, rowOK(y, a, len(y.pats[a]), s)) && rowOK(y, outer(loopidx)+1, loopidx+1, s)
